@@ -150,7 +150,7 @@ class StreamSampler:
     `text_limit` (then the selection is exactly `stratified`); beyond it the sampler keeps a bounded reservoir per
     stratum, so that a thorough exploration with millions of vectors does not have to fit in memory."""
 
-    def __init__(self, cap: int, seed: int, select=None, text_limit: int = 400 << 20):
+    def __init__(self, cap: int, seed: int, select=None, text_limit: int = 250 << 20):
         self.cap, self.seed, self.select = cap, seed, select
         self.text_limit = text_limit
         self.header: Optional[Dict[str, Any]] = None
